@@ -110,6 +110,8 @@ KNOCKOUTS = [
     Knockout("D2-compile-no-restore", CBASE, sub_nth("                            op.noise = noise_copy\n", "", 0), "effect.shared-op-store", "compile"),
     Knockout("D5-alias-initial-state", CBASE, sub_once("state_data = copy.deepcopy(initial_state.rep_data.data)", "state_data = initial_state.rep_data.data"),
              "effect.alias-into-state", "compile", on_fixed_only=True),
+    Knockout("D5-shallow-copy", CBASE, sub_once("state_data = copy.deepcopy(initial_state.rep_data.data)", "state_data = initial_state.rep_data.data.copy()"),
+             "effect.alias-into-state", "shallow", on_fixed_only=True),
     Knockout("F1-noise-order", MC, sub_once("                op_type_seq = op.operations\n", "                op_type_seq = [type(gate) for gate in op.unwrap()]\n"),
              "order.wrapper", "MonteCarloNoise._noisy_gates", on_fixed_only=True),
     Knockout("F1-unwrap-nodes-reversed", DAG, sub_once('                op_list = self.dag.nodes[node]["op"].unwrap()\n', '                op_list = self.dag.nodes[node]["op"].unwrap()[::-1]\n'),
